@@ -134,6 +134,22 @@ def legal_moves(nodes, edges, fixed, black, white, max_indegree):
                 yield "+", (X, Y), edges | {(X, Y)}
 
 
+def backmove_data(rng, n):
+    """rows where a child is a noisy sum (mod its cardinality) of up to 3 earlier columns, 60..200 rows: greedy search on such data
+    regularly adds an edge that becomes redundant later, so reaching a local optimum needs a move that undoes an earlier one."""
+    cols = _col_names(rng, n)
+    cards = [rng.choice((2, 3)) for _ in range(n)]
+    par = {i: rng.sample(range(i), rng.randint(1, min(i, 3))) for i in range(1, n)}
+    rows = []
+    for _ in range(rng.choice((60, 100, 200))):
+        r = [0] * n
+        for i in range(n):
+            s = sum(r[p] * (j + 1) for j, p in enumerate(par.get(i, ())))
+            r[i] = rng.randrange(cards[i]) if (i == 0 or rng.random() < 0.25) else s % cards[i]
+        rows.append(r)
+    return {"columns": cols, "rows": rows}
+
+
 def _pair_state(edges, a, b):
     return 1 if (a, b) in edges else (2 if (b, a) in edges else 0)
 
@@ -170,6 +186,14 @@ def gen_hc(tier, seed):
         n = rng.choice((2, 3, 3, 4, 4, 4) if tier == "quick" else (2, 3, 3, 4, 4, 4, 5, 5))
         case = rand_data(rng, n)
         case["configs"] = [rand_hc_config(rng, case["columns"]) for _ in range(6)]
+        yield case
+    # tabu list disabled, data on which the search has to take a move back
+    for i in range(100 if tier == "quick" else 500):
+        case = backmove_data(rng, rng.choice((4, 5)))
+        c = rand_hc_config(rng, case["columns"])
+        c.update(scoring=rng.choice(("k2", "bdeu", "inst:bdeu:5", "bic")), start=None, fixed=[], black=None, white=None, max_indegree=None, tabu_length=0,
+                 epsilon=1e-4, max_iter=1e6)
+        case["configs"] = [c]
         yield case
     # all start DAGs on <= 3 nodes, tabu list disabled
     for n in (2, 3):
@@ -444,7 +468,8 @@ def groups(tier):
               bound="seeded discrete data sets, 2..4 columns (thorough: ..5), cards <= 3, 20..60 rows, 6 option sets each: scoring k2/bdeu/bds/bic/aic by name or "
                     "scorer instance, start DAG (none / random / every DAG on <= 3 nodes), fixed edges, black/white lists (set or list), max_indegree none/1/2, "
                     "tabu_length 0/1/3/100, epsilon 1e-9..2, max_iter 0..3 or 1e6, cache on/off; local optimality re-checked with an independent move generator "
-                    "whenever the tabu list is disabled (or the result equals the start graph)"),
+                    "whenever the tabu list is disabled (or the result equals the start graph); 100 (500) data sets of 60..200 rows with noisy sum-mod dependencies "
+                    "(search needs back-moves) with tabu_length=0"),
         Group("exhaustive", gen_ex, check_ex, None, seed_fanout=1, engine="E3",
               bound="seeded data sets on 2..4 columns; estimate() vs maximum over own enumeration of all DAGs (3/25/543); all_scores() on <= 3 columns"),
         Group("tree_search", gen_tree, check_tree, None, seed_fanout=1, engine="E3",
